@@ -80,13 +80,20 @@ def run_case(case):
         ph = rb(w)
         f, _, _, _ = view.eval(w)
         ref = model.RefModel(spec, ph)
+        rt = 1e-9
+        if spec["method"]["cls"] == "SS":
+            amp = ref.amplification()
+            if amp > 1e5:
+                res["counters"]["discarded_points"] = res["counters"].get("discarded_points", 0) + 1
+                continue
+            rt = max(1e-9, 1e-13 * amp)
         fe = ref.objective()
         if not C.finite([f, fe]):
             res["counters"]["discarded_points"] = res["counters"].get("discarded_points", 0) + 1
             continue
         res["evals"] += 1
         res["counters"]["f_compared"] += 1
-        if abs(f - fe) > 1e-9 * (1 + abs(f) + abs(fe)):
+        if abs(f - fe) > rt * (1 + abs(f) + abs(fe)):
             res["violations"].append({
                 "kind": "objective-mismatch", "mech": "C05|objective-mismatch",
                 "detail": "point %d: NLP objective %.12g, declared terms evaluate to %.12g (terms: %s)" % (
